@@ -138,7 +138,9 @@ func r7ResponseContentType(c *an.Ctx, rule string) {
 		}
 		for si := 0; si < 2; si++ {
 			for _, a := range an.CondAtoms(ifi.Cond, si == 0) {
-				if a.Op == "==" && strings.EqualFold(strings.Trim(a.R, "\""), "content-type") {
+				lit := strings.EqualFold(strings.Trim(a.R, "\""), "content-type") && a.Op == "=="
+				fold := a.Op == "==" && a.R == "true" && strings.Contains(strings.ToLower(a.L), "\"content-type\"")
+				if lit || fold {
 					n++
 					w := everyPathPasses(fn, b.Succs[si], isSet)
 					key := "AddResponseHeader: a Content-Type header always sets RESPONSE_CONTENT_TYPE"
@@ -200,6 +202,16 @@ func r7CloseOnce(c *an.Ctx, rule string) {
 			}
 			key := fmt.Sprintf("%s of the transaction in %s is deferred clean-up of the middleware", m, an.RelName(fn))
 			ok := (deferred || inDeferredClosure) && strings.HasPrefix(an.RelName(outer), "http.WrapHandler")
+			if !ok && fn.Parent() == nil && fn.Object() != nil && !fn.Object().Exported() {
+				// a named clean-up function: every call of it is a defer inside the middleware
+				sites := c.P.CallSites(func(x ssa.Instruction) bool { return an.IsCallTo(x, fn) })
+				ok = len(sites) > 0
+				for _, cs := range sites {
+					if _, isDefer := cs.Call.(*ssa.Defer); !isDefer || !strings.HasPrefix(an.RelName(an.OuterFn(cs.Fn)), "http.WrapHandler") {
+						ok = false
+					}
+				}
+			}
 			c.Check(ok, rule, key, in.Pos(), "called from the deferred function of the request closure", "the connector calls "+m+" outside the middleware's deferred clean-up: the transaction is finished twice (the deferred clean-up still runs), and a second Close returns the same pooled object to sync.Pool, so two later transactions share it")
 		})
 	}
@@ -647,7 +659,7 @@ func r7SetvarParseErrors(c *an.Ctx, rule string) {
 				c.Bad(rule, key, call.Pos(), "the parse error of "+an.Expr(call)+" is discarded: a value that is not a number is computed with as if it were one")
 				return
 			}
-			c.Check(errBranchLeaves(f, errV), rule, key, call.Pos(), "the err != nil branch leaves the function without rejoining the arithmetic", "the err != nil branch of "+an.Expr(call)+" continues into the arithmetic with a substitute value: a counter fed from several values of a collection then ends with a total that depends on the (map) order the values were visited in, and a non-numeric stored value is silently treated as a number")
+			c.Check(errBranchLeaves(f, errV) || !valueUsedOnErrBranch(f, call, errV), rule, key, call.Pos(), "the err != nil branch leaves the function without rejoining the arithmetic", "the err != nil branch of "+an.Expr(call)+" continues into the arithmetic with a substitute value: a counter fed from several values of a collection then ends with a total that depends on the (map) order the values were visited in, and a non-numeric stored value is silently treated as a number")
 		})
 	}
 	c.MinCount(rule, "number parses in setvar arithmetic", n, 2)
@@ -792,6 +804,9 @@ func r7BinaryRxVerdict(c *an.Ctx, rule string) {
 			if strings.Contains(s, "o.re.") || strings.Contains(s, "Capturing()") || strings.Contains(s, "rangeindex") {
 				continue
 			}
+			if !strings.Contains(s, "value") && !strings.Contains(s, "o.") {
+				continue // a bound of the capture loop (i < 10): does not depend on the input or on the operator's state
+			}
 			foreign = append(foreign, tempName.ReplaceAllString(a.String(), ""))
 			if !at.IsValid() {
 				at = ifi.Cond.Pos()
@@ -924,4 +939,123 @@ func r7BodyBufferFieldsReset(c *an.Ctx, rule string) {
 		}
 	}
 	c.MinCount(rule, "BodyBuffer fields written outside the constructor", n, 2)
+}
+
+// valueUsedOnErrBranch: some instruction reachable from an edge on which errV != nil uses the
+// value parsed by call (result #0), directly or through phis, conversions and arithmetic.
+func valueUsedOnErrBranch(fn *ssa.Function, call *ssa.Call, errV ssa.Value) bool {
+	derived := map[ssa.Value]bool{}
+	var mark func(v ssa.Value, depth int)
+	mark = func(v ssa.Value, depth int) {
+		if derived[v] || depth > 12 {
+			return
+		}
+		derived[v] = true
+		if refs := v.Referrers(); refs != nil {
+			for _, r := range *refs {
+				switch x := r.(type) {
+				case *ssa.Phi, *ssa.BinOp, *ssa.Convert, *ssa.ChangeType, *ssa.UnOp:
+					mark(x.(ssa.Value), depth+1)
+				}
+			}
+		}
+	}
+	for _, ref := range *call.Referrers() {
+		if ex, ok := ref.(*ssa.Extract); ok && ex.Index == 0 {
+			mark(ex, 0)
+		}
+	}
+	errE := an.Expr(errV)
+	for _, b := range fn.Blocks {
+		ifi, ok := b.Instrs[len(b.Instrs)-1].(*ssa.If)
+		if !ok {
+			continue
+		}
+		for si := 0; si < 2; si++ {
+			isErr := false
+			for _, a := range an.CondAtoms(ifi.Cond, si == 0) {
+				if a.L == errE && a.Op == "!=" && a.R == "nil" {
+					isErr = true
+				}
+			}
+			if !isErr {
+				continue
+			}
+			start := b.Succs[si]
+			w := an.FindPath(an.PathQuery{Fn: fn, StartBlock: start, Target: func(in ssa.Instruction) bool {
+				if _, isPhi := in.(*ssa.Phi); isPhi {
+					return false
+				}
+				for _, op := range in.Operands(nil) {
+					if op != nil && *op != nil && derived[*op] {
+						return true
+					}
+				}
+				return false
+			}})
+			if w != nil {
+				return true
+			}
+		}
+	}
+	return false
+}
+
+// r7LockPairing (C06.R3, shared with C13 for the pattern cache): every Lock/RLock of a module
+// mutex is released on every path to a return of the same function: by an Unlock/RUnlock of
+// the same mutex or by a deferred one.  A path that leaves the function with the lock held (an
+// early `return true` inside a Range callback after the entry was retired) blocks the next
+// goroutine that needs the lock for ever.
+func r7LockPairing(c *an.Ctx, rule string) {
+	n := 0
+	seen := map[string]int{}
+	unlockOf := map[string]string{"Lock": "Unlock", "RLock": "RUnlock"}
+	isMutexMethod := func(in ssa.Instruction, names ...string) (string, string) {
+		cc := an.CallOf(in)
+		if cc == nil || cc.StaticCallee() == nil || cc.StaticCallee().Signature.Recv() == nil || len(cc.Args) == 0 {
+			return "", ""
+		}
+		rt := cc.StaticCallee().Signature.Recv().Type().String()
+		if !strings.HasSuffix(rt, "sync.Mutex") && !strings.HasSuffix(rt, "sync.RWMutex") {
+			return "", ""
+		}
+		for _, nm := range names {
+			if cc.StaticCallee().Name() == nm {
+				return nm, tempName.ReplaceAllString(an.Expr(cc.Args[0]), "")
+			}
+		}
+		return "", ""
+	}
+	for _, fn := range c.P.ModFuncs {
+		if rp := relPkg(fn); strings.HasPrefix(rp, "testing") || strings.HasPrefix(rp, "examples") {
+			continue
+		}
+		an.Instrs(fn, func(in ssa.Instruction) {
+			if _, isDefer := in.(*ssa.Defer); isDefer {
+				return
+			}
+			m, recv := isMutexMethod(in, "Lock", "RLock")
+			if m == "" {
+				return
+			}
+			n++
+			c.FuncsAnalysed[fn] = true
+			w := an.FindPath(an.PathQuery{Fn: fn, After: in, Target: isReturn, Stop: func(x ssa.Instruction) bool {
+				um, ur := isMutexMethod(x, unlockOf[m])
+				return um != "" && ur == recv
+			}})
+			k := fmt.Sprintf("%s of %s in %s is released on every path", m, recv, an.RelName(fn))
+			seen[k]++
+			key := k
+			if seen[k] > 1 {
+				key += fmt.Sprintf("#%d", seen[k])
+			}
+			if w == nil {
+				c.Ok(rule, key, in.Pos(), "every path to a return passes "+unlockOf[m]+" (direct or deferred)")
+			} else {
+				c.Bad(rule, key, w.Target.Pos(), "some path from this "+m+" leaves the function without "+unlockOf[m]+" on "+recv+": the next goroutine that needs the lock (another WAF being built or closed, another transaction) blocks for ever", c.P.TrailString(w)...)
+			}
+		})
+	}
+	c.MinCount(rule, "mutex acquisitions in the module", n, 2)
 }
